@@ -133,6 +133,19 @@ func (g *gen) removeTag(key [2]int, tag int, mult bool) {
 	g.outstanding[key] = keep
 }
 
+// beforeStop: the steps that follow are connection drops and then the graceful stop
+func beforeStop(rest []string) bool {
+	for _, o := range rest {
+		if o == "RESTART" {
+			return true
+		}
+		if !strings.HasPrefix(o, "DROP ") {
+			return false
+		}
+	}
+	return false
+}
+
 func (g *gen) snap() server.VerifSnapshot {
 	sn, _ := g.s.snapshot(true)
 	return sn
@@ -584,8 +597,42 @@ func (g *gen) stepRandom() {
 	}
 	if (focus == "restart" || focus == "routing") && g.nsteps > 8 && g.r.Chance(1, 14) {
 		// graceful restart: drop every connection first, restart, connect again and look at what came back
-		for _, c := range append([]int{}, g.conns...) {
-			g.do(fmt.Sprintf("DROP %d", c))
+		conns := append([]int{}, g.conns...)
+		last, lastConn := "", -1
+		if g.r.Chance(1, 2) {
+			// the last request before the stop is handled but not yet flushed by the store: an acknowledgement, or a
+			// publish on a channel that is not in confirm mode (the stop has to write out what is pending)
+			sn := g.snap()
+			for _, c := range conns {
+				for _, h := range g.chans[c] {
+					key := [2]int{c, h}
+					if last == "" && len(g.outstanding[key]) > 0 && g.r.Chance(2, 3) {
+						tag := g.outstanding[key][g.r.Intn(len(g.outstanding[key]))]
+						last, lastConn = fmt.Sprintf("ACK %d %d %d 0", c, h, tag), c
+					}
+					if last == "" && !g.confirm[key] && g.r.Chance(1, 2) {
+						g.uid++
+						last, lastConn = fmt.Sprintf("PUB %d %d - %s 0 0 1 %d %d", c, h, g.existingQueue(sn), g.uid, 1+g.r.Intn(20)), c
+					}
+				}
+			}
+		}
+		// the step before the stop does not wait for the store (the replay applies the same rule by looking ahead)
+		var pre []string
+		for _, c := range conns {
+			if c != lastConn {
+				pre = append(pre, fmt.Sprintf("DROP %d", c))
+			}
+		}
+		if last != "" {
+			pre = append(pre, last, fmt.Sprintf("DROP %d", lastConn))
+		}
+		for i, op := range pre {
+			g.s.beforeStop = beforeStop(append(pre[i+1:], "RESTART"))
+			g.do(op)
+			g.s.beforeStop = false
+		}
+		for _, c := range conns {
 			g.dropConn(c)
 		}
 		g.do("RESTART")
